@@ -113,7 +113,7 @@ class StoreMachine(LoggedMachine):
                 self.ctx.label(f)
             if self.flags & self.NONTRIVIAL_FLAGS:
                 self.ctx.mark_nontrivial({'log': self.log})
-            if len(self.log) >= 6:
+            if len(self.log) >= 6 and (self.flags & self.NONTRIVIAL_FLAGS):
                 self.ctx.sample([f"{s['op']}({','.join(f'{k}={str(v)[:30]}' for k, v in s['args'].items())})" for s in self.log[:25]])
 
     NONTRIVIAL_FLAGS = {'old_read_after_add_in_append', 'reload_after_eviction', 'two_reopens'}
